@@ -561,7 +561,12 @@ class Body:
             elif 'cidx' in pr:
                 base = ('index', base, ('const', pr['cidx']))
             elif 'down' in pr:
-                base = ('down', base, pr['down'])
+                if base[0] == 'variants' and pr['down'] in dict(base[2]):
+                    base = dict(base[2])[pr['down']]            # the definition of that variant
+                elif base[0] == 'adt' and len(base) == 4 and base[2] == pr['down']:
+                    pass                                        # a literal of that very variant: its fields follow
+                else:
+                    base = ('down', base, pr['down'])
             else:
                 base = ('proj', base, json.dumps(pr, sort_keys=True))
         return base
@@ -578,6 +583,13 @@ class Body:
         if name is not None and (not expand_named or len(whole) != 1 or parts
                                  or self.locals[l].get('mut')):
             return ('var', name, l)
+        if len(whole) > 1 and not parts and name is None and all(d[0] == 'stmt' for d in whole):
+            # a temporary built as a different variant of one enum on different paths (`Continue(x)` here, `Break(e)` there):
+            # a downcast later selects the definition that can have reached it
+            rvs = [self.blocks[d[1]]['stmts'][d[2]].get('rv', {}) for d in whole]
+            if all(rv.get('k') == 'agg' and rv.get('agg') == 'adt' for rv in rvs) and len({rv.get('adt') for rv in rvs}) == 1 \
+                    and len({rv.get('variant') for rv in rvs}) == len(rvs):
+                return ('variants', rvs[0]['adt'], tuple((rv['variant'], self.canon_rv(rv, depth + 1, expand_named)) for rv in rvs))
         if len(whole) != 1 or parts:
             return ('tmp', l)
         d = whole[0]
@@ -1186,30 +1198,61 @@ class PathWalker:
             self.depth -= 1
             self.cur_fn = saved
 
+    def let_stmt(self, s, conds, env):
+        """one `let` statement: walks its parts, extends env in place, returns the conditions that hold after it"""
+        if 'init' in s:
+            self.expr(s['init'], conds, env)
+        pat = s['pat']
+        if 'else' in s:
+            # `let Some(pos) = self.checked_pos(index) else { .. }`: pos is what the helper computed, under what it checked;
+            # the else block runs when that (single) check failed
+            pp = pat.get('pats') or [f_.get('pat') for f_ in pat.get('fields', [])] if pat.get('k') in ('tuplestruct', 'struct') else None
+            pth_ = pat.get('path') if isinstance(pat.get('path'), str) else (pat.get('path') or {}).get('path')
+            cv = None
+            if pp and len(pp) == 1 and isinstance(pp[0], dict) and pp[0].get('k') == 'bind' and str(pth_ or '').endswith(('::Some', '::Ok')):
+                cv = checked_value_of_call(self.facts, s.get('init'), env)
+            neg = ()
+            if cv is not None and len(cv[1]) == 1 and cv[1][0][0] == 'if':
+                c0 = cv[1][0]
+                neg = (('if', c0[1], not c0[2], c0[3] if len(c0) > 3 else dict(env)),)
+            self.block(s['else'], conds + (('let', pat, s.get('init'), False),) + neg, env)
+            conds = conds + (('let', pat, s.get('init'), True),)
+            if cv is not None:
+                env[pp[0]['id']] = cv[0]
+                conds = conds + cv[1]
+        if pat.get('k') == 'bind' and 'init' in s and strip_refs(s['init']).get('k') == 'closure':
+            env[pat['id']] = ('closure', strip_refs(s['init'])['def'])
+        elif pat.get('k') == 'bind' and 'init' in s and pat.get('mode', '').endswith('Not)'):
+            cv = checked_value_of_try(self.facts, s['init'], env) if 'else' not in s else None
+            if cv is not None:
+                env[pat['id']] = cv[0]          # `let pos = self.checked_pos(index)?;`: pos is the value the helper computed,
+                conds = conds + cv[1]           # under the conditions it checked
+            else:
+                env[pat['id']] = hcanon(s['init'], env)
+        elif pat.get('k') == 'tuple' and 'init' in s and 'else' not in s:
+            # `let (a, b) = (x, y);` binds component-wise
+            ini = strip_refs(s['init'])
+            while ini.get('k') == 'block' and not ini.get('stmts') and ini.get('tail') is not None:
+                ini = strip_refs(ini['tail'])
+            if ini.get('k') == 'tup' and len(ini.get('xs', [])) == len(pat.get('pats', [])):
+                for sp, x in zip(pat['pats'], ini['xs']):
+                    if sp.get('k') == 'bind' and sp.get('mode', '').endswith('Not)') and 'sub' not in sp:
+                        env[sp['id']] = hcanon(x, env)
+            elif self.facts is not None and ini.get('k') in ('call', 'mcall'):
+                # `let (base, count) = self.region();` with a single-expression helper returning a tuple
+                cv_ = inline_calls(hcanon(ini, env), self.facts)
+                if isinstance(cv_, tuple) and cv_ and cv_[0] == 'tuple' and len(cv_[1]) == len(pat.get('pats', [])):
+                    for sp, x in zip(pat['pats'], cv_[1]):
+                        if sp.get('k') == 'bind' and sp.get('mode', '').endswith('Not)') and 'sub' not in sp:
+                            env[sp['id']] = x
+        return conds
+
     def block(self, b, conds, env):
         env = dict(env)
         conds = tuple(conds)
         for s in b.get('stmts', []):
             if s['k'] == 'let':
-                if 'init' in s:
-                    self.expr(s['init'], conds, env)
-                pat = s['pat']
-                if 'else' in s:
-                    self.block(s['else'], conds + (('let', pat, s.get('init'), False),), env)
-                    conds = conds + (('let', pat, s.get('init'), True),)
-                if pat.get('k') == 'bind' and 'init' in s and strip_refs(s['init']).get('k') == 'closure':
-                    env[pat['id']] = ('closure', strip_refs(s['init'])['def'])
-                elif pat.get('k') == 'bind' and 'init' in s and pat.get('mode', '').endswith('Not)'):
-                    env[pat['id']] = hcanon(s['init'], env)
-                elif pat.get('k') == 'tuple' and 'init' in s and 'else' not in s:
-                    # `let (a, b) = (x, y);` binds component-wise
-                    ini = strip_refs(s['init'])
-                    while ini.get('k') == 'block' and not ini.get('stmts') and ini.get('tail') is not None:
-                        ini = strip_refs(ini['tail'])
-                    if ini.get('k') == 'tup' and len(ini.get('xs', [])) == len(pat.get('pats', [])):
-                        for sp, x in zip(pat['pats'], ini['xs']):
-                            if sp.get('k') == 'bind' and sp.get('mode', '').endswith('Not)') and 'sub' not in sp:
-                                env[sp['id']] = hcanon(x, env)
+                conds = self.let_stmt(s, conds, env)
             else:
                 e = s['e']
                 self.expr(e, conds, env)
@@ -1498,14 +1541,7 @@ class _ExitWalker(PathWalker):
     def _stmt(self, s, conds, env):
         # mirror of PathWalker.block for one statement, returning the updated (conds, env)
         if s['k'] == 'let':
-            if 'init' in s:
-                self.expr(s['init'], conds, env)
-            pat = s['pat']
-            if 'else' in s:
-                self.block(s['else'], conds + (('let', pat, s.get('init'), False),), env)
-                conds = conds + (('let', pat, s.get('init'), True),)
-            if pat.get('k') == 'bind' and 'init' in s and pat.get('mode', '').endswith('Not)'):
-                env[pat['id']] = hcanon(s['init'], env)
+            conds = self.let_stmt(s, conds, env)
         else:
             e = s['e']
             self.expr(e, conds, env)
@@ -1566,12 +1602,69 @@ def private_callee(facts, e):
 
 _EXIT_SHIFT = [0]
 
+def checked_value_of_try(facts, init, env):
+    """`let x = helper(args)?;` / `let x = helper(args).ok()?;` where the private helper has exactly one exit producing a value
+    (`Ok(v)` / `Some(v)`) and all others fail: returns (canonical v in the caller's terms, the conditions of that exit), so that
+    x stands for v and what the helper checked counts as checked here.  None otherwise."""
+    e0 = strip_refs(init) if isinstance(init, dict) else None
+    if not isinstance(e0, dict) or e0.get('k') != 'match' or not str(e0.get('source', '')).startswith('TryDesugar') or facts is None:
+        return None
+    sc = e0.get('scrut', {})
+    if not (sc.get('k') == 'call' and isinstance(sc.get('f'), dict) and (sc['f'].get('path') or '').endswith('Try::branch') and len(sc.get('args', [])) == 1):
+        return None
+    return checked_value_of_call(facts, sc['args'][0], env)
+
+
+def checked_value_of_call(facts, call, env):
+    """the same for the call itself (`let Some(x) = helper(args) else { .. }`, `if let Ok(x) = helper(args)`)"""
+    if facts is None or not isinstance(call, dict):
+        return None
+    inner = strip_refs(call)
+    if inner.get('k') == 'mcall' and inner.get('name') == 'ok' and re.search(r'Result::<.*>::ok$', inner.get('path') or '') and not inner.get('args'):
+        inner = strip_refs(inner['recv'])
+    pc = private_callee(facts, inner)
+    if pc is None:
+        return None
+    g, args = pc
+    if not re.match(r'^std::(result::Result|option::Option)<', g.output or ''):
+        return None
+    from .c05 import subst_hir
+    _EXIT_SHIFT[0] += 1
+    shift = 10000000 * (_EXIT_SHIFT[0] % 200 + 1)
+    body = subst_hir(g.hir['value'], {pt['id']: a for pt, a in zip(g.hir['params'], args)}, shift)
+    good = []
+    for (x, conds, e2) in fn_exits(g, True, 1, body):
+        x0 = strip_refs(x) if isinstance(x, dict) else {}
+        pth = x0['f'].get('path') if x0.get('k') == 'call' and isinstance(x0.get('f'), dict) else (x0.get('path') if x0.get('k') == 'path' else None)
+        pth = pth or ''
+        if pth.endswith('::Ok') or pth.endswith('::Some'):
+            good.append((x0, conds, e2))
+        elif pth.endswith('::Err') or pth.endswith('::None'):
+            continue
+        else:
+            return None
+    if len(good) != 1 or len(good[0][0].get('args', [])) != 1:
+        return None
+    x0, conds, e2 = good[0]
+    ee = dict(env)
+    ee.update(e2)
+    c3 = []
+    for cd in conds:
+        if cd[0] == 'if':
+            e3 = dict(env)
+            e3.update(cd[3] if len(cd) > 3 else {})
+            cd = ('if', cd[1], cd[2], e3)
+        c3.append(cd)
+    return hcanon(x0['args'][0], ee), tuple(c3)
+
+
 
 def fn_exits(fn, delegate=True, _depth=0, _body=None):
     """[(value expr node, conds, env)] for every way fn can return a value.  An exit whose value is the call of a
     private helper (`return check(x)` / tail `check(x)`) is replaced by the helper's own exits, parameters
     substituted by the argument expressions, so that moving the tail of a function into a helper changes nothing."""
     w = _ExitWalker()
+    w.facts = getattr(fn, 'facts', None)
     if _body is not None:
         w.tail(_body, (), {})
     else:
@@ -1689,10 +1782,26 @@ def inline_mir(mir, facts, owner, pick, depth=3):
         inlined.append(g.path)
         if direct:
             _thread_try(blocks, t['dest']['l'], t['target'], range(boff, len(blocks)))
+            _thread_match(blocks, t['dest']['l'], t['target'], range(boff, len(blocks)))
     out = dict(mir)
     out['blocks'] = blocks
     out['locals'] = locals_
     return out, inlined
+
+
+def _reachable_block(blocks, target):
+    seen, todo = {0}, [0]
+    while todo:
+        t2 = blocks[todo.pop()]['term']
+        succ = ([t2.get('target')] if t2.get('target') is not None else []) + [x_[1] for x_ in t2.get('targets', [])] + ([t2['otherwise']] if t2.get('otherwise') is not None else [])
+        for k_ in ('unwind', 'cleanup'):
+            if isinstance(t2.get(k_), int):
+                succ.append(t2[k_])
+        for nx in succ:
+            if isinstance(nx, int) and nx not in seen and 0 <= nx < len(blocks):
+                seen.add(nx)
+                todo.append(nx)
+    return target in seen
 
 
 def _thread_try(blocks, d, cont, region):
@@ -1722,17 +1831,19 @@ def _thread_try(blocks, d, cont, region):
     tg = dict((v, b) for v, b in st_['targets'])
     if 0 not in tg or 1 not in tg:
         return
-    made = {}
-
-    def copy_pair(kind):
-        if kind in made:
-            return made[kind]
-        c2 = {'cleanup': False, 'stmts': [], 'term': dict(ct, target=len(blocks) + 1), 'threaded': kind}
-        s2 = {'cleanup': False, 'stmts': list(sw['stmts']), 'term': {'k': 'goto', 'target': tg[0 if kind == 'Ok' else 1], 'line': st_['line'], 'exp': False, 'threaded': kind}}
+    def copy_pair(kind, payload):
+        """a block that writes what `Try::branch` would return for this value and goes where the switch would go"""
+        line = st_['line']
+        cdest = ct['dest']
+        if kind == 'Ok':
+            rv = {'k': 'agg', 'agg': 'adt', 'adt': 'std::ops::ControlFlow', 'variant': 'Continue', 'vi': 0, 'adt_args': [], 'fields': ['0'], 'ops': [payload]}
+        else:
+            rv = {'k': 'agg', 'agg': 'adt', 'adt': 'std::ops::ControlFlow', 'variant': 'Break', 'vi': 1, 'adt_args': [], 'fields': ['0'],
+                  'ops': [{'copy': {'l': d, 'p': []}}]}          # the residual carries the error of `_d`
+        c2 = {'cleanup': False, 'stmts': [{'k': 'assign', 'lhs': cdest, 'rv': rv, 'line': line, 'exp': False, 'threaded': kind}] + list(sw['stmts']),
+              'term': {'k': 'goto', 'target': tg[0 if kind == 'Ok' else 1], 'line': line, 'exp': False, 'threaded': kind}}
         blocks.append(c2)
-        blocks.append(s2)
-        made[kind] = len(blocks) - 2
-        return made[kind]
+        return len(blocks) - 1
 
     def reaches_cont(b, seen=()):
         """b leads to cont through empty goto blocks only"""
@@ -1748,13 +1859,72 @@ def _thread_try(blocks, d, cont, region):
         bb = blocks[bi]
         if bb.get('cleanup') or bb['term']['k'] != 'goto':
             continue
-        kind = None
+        kind = payload = None
         for x in bb['stmts']:
             if x['k'] == 'assign' and x['lhs'] == {'l': d, 'p': []}:
                 rv = x['rv']
                 kind = rv.get('variant') if (rv.get('k') == 'agg' and rv.get('adt') == 'std::result::Result') else None
-        if kind in ('Ok', 'Err') and reaches_cont(bb['term']['target']):
-            bb['term'] = dict(bb['term'], target=copy_pair(kind), threaded_from=bb['term']['target'])
+                payload = rv['ops'][0] if kind and rv.get('ops') else None
+        if kind in ('Ok', 'Err') and payload is not None and reaches_cont(bb['term']['target']):
+            if 'move' in payload:
+                payload = {'copy': payload['move']}
+            bb['term'] = dict(bb['term'], target=copy_pair(kind, payload), threaded_from=bb['term']['target'])
+    # when every way into `cont` has been threaded, the generic Try::branch is dead: its definition of `_c` goes away
+    preds = 0
+    for bj, bb in enumerate(blocks):
+        if bj == cont or bb.get('cleanup'):
+            continue
+        t2 = bb['term']
+        succ = ([t2.get('target')] if t2.get('target') is not None else []) + [x_[1] for x_ in t2.get('targets', [])] + ([t2['otherwise']] if t2.get('otherwise') is not None else [])
+        if cont in succ and _reachable_block(blocks, bj):
+            preds += 1
+    if preds == 0:
+        blocks[cont] = {'cleanup': False, 'stmts': [], 'term': {'k': 'unreachable', 'line': ct['line'], 'exp': False, 'threaded': 'dead'}}
+        blocks[ct['target']] = {'cleanup': False, 'stmts': [], 'term': {'k': 'unreachable', 'line': ct['line'], 'exp': False, 'threaded': 'dead'}}
+
+
+def _thread_match(blocks, d, cont, region):
+    """The same for an inlined helper whose enum value (`Option`, `Result`, a private enum) is matched on at once --
+         cont:  _x = discriminant(_d); switchInt(_x) [..]
+    -- each block of the inlined body that ends by building a variant of `_d` goes straight to a copy of `cont` whose switch is
+    resolved for that variant."""
+    if cont is None or cont >= len(blocks):
+        return
+    cb = blocks[cont]
+    st_ = cb['term']
+    live = [x for x in cb['stmts'] if x['k'] not in ('storage_live', 'storage_dead', 'nop')]
+    if st_['k'] != 'switch' or len(live) != 1 or live[0]['k'] != 'assign' or live[0]['rv'].get('k') != 'discr' or live[0]['rv']['place'] != {'l': d, 'p': []}:
+        return
+    if op_place(st_['discr']) != {'l': live[0]['lhs']['l'], 'p': []}:
+        return
+    tg = dict((v, b) for v, b in st_['targets'])
+
+    def reaches_cont(b, seen=()):
+        if b == cont:
+            return True
+        if b in seen or b >= len(blocks):
+            return False
+        bb = blocks[b]
+        if bb['term']['k'] != 'goto' or [x for x in bb['stmts'] if x['k'] not in ('storage_live', 'storage_dead', 'nop')]:
+            return False
+        return reaches_cont(bb['term']['target'], seen + (b,))
+    copies = {}
+    for bi in list(region):
+        bb = blocks[bi]
+        if bb.get('cleanup') or bb['term']['k'] != 'goto':
+            continue
+        vi = None
+        for x in bb['stmts']:
+            if x['k'] == 'assign' and x['lhs'] == {'l': d, 'p': []}:
+                rv = x['rv']
+                vi = rv.get('vi') if (rv.get('k') == 'agg' and rv.get('agg') == 'adt') else None
+        if vi is None or not reaches_cont(bb['term']['target']):
+            continue
+        if vi not in copies:
+            blocks.append({'cleanup': False, 'stmts': list(cb['stmts']),
+                           'term': {'k': 'goto', 'target': tg.get(vi, st_['otherwise']), 'line': st_['line'], 'exp': False, 'threaded': 'variant %s' % vi}})
+            copies[vi] = len(blocks) - 1
+        bb['term'] = dict(bb['term'], target=copies[vi], threaded_from=bb['term']['target'])
 
 
 def inlined_fn(facts, path, pick, tag='inl'):
@@ -3022,11 +3192,18 @@ def sroa_private_params(facts):
         new_locals = [old_locals[0]]
         lmap = {0: 0}
         newparams = {}
+        # field names become parameter names; when two split parameters (or a split one and a plain one) would collide, the
+        # names are qualified by the old parameter (`original.count`, `recovery.count`)
+        cand = [fname for i in todo for (fname, _) in structs[old_locals[i]['ty']]] + [old_locals[i].get('name') for i in range(1, mir['arg_count'] + 1) if i not in todo]
+        qualify = len(cand) != len(set(cand))
+        g.x['sroa_qualified'] = qualify
         for i in range(1, mir['arg_count'] + 1):
             if i in todo:
                 ids = []
                 for (fname, fty) in structs[old_locals[i]['ty']]:
                     ids.append(len(new_locals))
+                    if qualify:
+                        fname = '%s.%s' % (old_locals[i].get('name'), fname)
                     new_locals.append({'ty': fty, 'name': fname, 'user': True, 'mut': False, 'sroa_of': old_locals[i].get('name')})
                 newparams[i] = ids
             else:
@@ -3136,6 +3313,8 @@ def sroa_private_params(facts):
                 fmap = {}
                 for k_, (fname, fty) in enumerate(fields):
                     fid, fnm = ids.get(fname, (fresh + k_, fname))
+                    if g.x.get('sroa_qualified'):
+                        fnm = '%s.%s' % (pt.get('name'), fname)
                     fmap[fname] = (fid, fnm, fty)
                     nparams.append({'k': 'bind', 'name': fnm, 'id': fid, 'mode': 'BindingMode(No, Not)', 'ty': fty})
                 body = _hir_param_fields(body, pt['id'], fmap)
